@@ -60,20 +60,23 @@ pub struct IdInfo {
     pub name: String,
     pub tag: String,
     pub node: odom::Id,
-    /// index of the element's first visible T-character in the T-filtered visible stream
+    /// number of token characters before the element's first visible character
     pub first: usize,
 }
 
 /// Elements carrying an id (or a[name]) that contain visible token text.
 pub fn ids_with_text(dom: &ODom) -> Vec<IdInfo> {
-    let vs: Vec<odom::VChar> = odom::visible_stream(dom, &|_| false)
-        .into_iter()
-        .filter(|v| in_t(v.c))
-        .collect();
-    // first index per node
+    // For every node, the number of token characters that precede its first visible
+    // character (any visible character counts as content: an element holding only
+    // digits, e.g. <sup id=n>2</sup>, has visible content too).
+    let all: Vec<odom::VChar> = odom::visible_stream(dom, &|_| false);
     let mut first_of_node: HashMap<odom::Id, usize> = HashMap::new();
-    for (i, v) in vs.iter().enumerate() {
-        first_of_node.entry(v.node).or_insert(i);
+    let mut t_before = 0usize;
+    for v in all.iter() {
+        first_of_node.entry(v.node).or_insert(t_before);
+        if in_t(v.c) {
+            t_before += 1;
+        }
     }
     let mut out = Vec::new();
     for (id, n) in dom.nodes.iter().enumerate() {
@@ -464,7 +467,22 @@ fn run_case(seed: u64, idx: u64, _tier: Tier, out: &mut CaseOut) {
         p.boundary = Some(w.min(30));
     }
     p.long_permille = 100;
-    let doc = gen_doc(&mut rng, &p);
+    let mut doc = gen_doc(&mut rng, &p);
+    // digit-only superscripts (drawn with superscript glyphs on a path of their own)
+    // that carry an id: visible content, so a marker is due
+    if rng.chance(1, 3) {
+        let mut added = 0;
+        ast::for_each_el_mut(&mut doc, &mut |e| {
+            if added < 3 && matches!(e.tag.as_str(), "p" | "li" | "div" | "td" | "em" | "blockquote") && rng.chance(1, 4) {
+                let at = rng.below(e.children.len() + 1);
+                let sup = ast::El::with("sup", vec![ast::Node::Word(format!("{}", rng.range(0, 999)))])
+                    .attr("id", &format!("s{}", added));
+                e.children.insert(at, sup.node());
+                added += 1;
+            }
+        });
+        out.count("digit_superscripts_with_id", added);
+    }
     let input = if rng.chance(1, 2) {
         ser_canonical(&doc)
     } else {
